@@ -92,7 +92,8 @@ class Recorder:
         sp = []
         for s in spans:
             a, b = s[0], s[1]
-            sp.append((a.filename, a.pos, b.filename, b.pos, len(a.code), a.code))
+            # repr() of a position is what the bare report format prints: the implementation's own line:column
+            sp.append((a.filename, a.pos, b.filename, b.pos, len(a.code), a.code, repr(a), repr(b)))
         self.reports.append((sev, identifier, sp))
         if self.abort_at is not None and len(self.reports) == self.abort_at:
             raise AbortRun()
@@ -155,9 +156,15 @@ class Outcome:
         return (self.status, self.base, self.code, tuple(self.error_kinds()), self.exc, self.site)
 
     def positions(self):
+        """(severity, kind, ((file, line, col, file, line, col), ...)) as rendered by the implementation (file:line:col)"""
         out = []
         for sev, kind, spans in self.reports:
-            out.append((sev, kind, tuple((s[0],) + linecol(s[5], s[1]) + (s[2],) + linecol(s[5], s[3]) for s in spans)))
+            row = []
+            for s in spans:
+                fa, la, ca = s[6].rsplit(":", 2)
+                fb, lb, cb = s[7].rsplit(":", 2)
+                row.append((fa, int(la), int(ca), fb, int(lb), int(cb)))
+            out.append((sev, kind, tuple(row)))
         return out
 
     def brief(self):
